@@ -255,6 +255,9 @@ func run(env *simrt.Env, sci interface{}) {
 			ctx, cancel = context.WithTimeout(context.Background(), time.Duration(spec.CtxNs))
 		default:
 			ctx, cancel = context.WithCancel(context.Background())
+			if spec.After != "cancel" {
+				ctx = context.Background() // the real thing: Done() is nil
+			}
 		}
 		if spec.After == "cancel" {
 			defer cancel()
@@ -515,6 +518,10 @@ func run(env *simrt.Env, sci interface{}) {
 				case !r.returned || r.ctx.Err() != nil || faulty[e]:
 					ctxReads++
 				}
+			}
+			if okReads > len(received) && !faulty[e] {
+				env.Fail("C17/read-invented", "end %d: %d calls returned a message (or an empty one) without error, but the wrapped connection handed over only %d: a read that takes nothing from the connection cannot report success", e, okReads, len(received))
+				return
 			}
 			if len(received) > okReads+ctxReads {
 				env.Fail("C17/read-data-lost", "end %d: the wrapped connection handed %d messages (empty ones included) to the wrapper, but only %d calls returned a message and %d ended with their context's error or are still pending", e, len(received), okReads, ctxReads)
